@@ -6,6 +6,7 @@ import PgmVerif.Props.C11
 import PgmVerif.Model.PDAG
 import PgmVerif.Props.C08
 import PgmVerif.Proofs.ToDag
+import PgmVerif.Proofs.Meek
 namespace PgmVerif
 open Relation
 
@@ -190,5 +191,26 @@ example : (DG.mk [0, 1, 2] [(0, 2), (1, 2)]).WFG := by
   intro e he
   simp at he
   rcases he with rfl | rfl <;> decide
+
+/-- **the orientation rules are sound** (Meek R1–R3, the rules `PC.skeleton_to_pdag` applies after the v-structures): in EVERY
+    acyclic graph `E` — in particular in every member of the Markov equivalence class —
+    * R1: a → b, b adjacent to c, a and c distinct and non-adjacent, a → b ← c not an unshielded collider of `E` ⇒ b → c;
+    * R2: a → b → c with a adjacent to c ⇒ a → c;
+    * R3: c → b ← d with c, d distinct and non-adjacent, a adjacent to b, c and d, c → a ← d not an unshielded collider ⇒ a → b.
+    An edge that a rule orients therefore has that direction in all members: the rules never orient a reversible edge. -/
+theorem C12_meek_rules_sound (E : List (Var × Var)) (hacyc : Acyclic E) :
+    (∀ a b c, (a, b) ∈ E → AdjD E b c → a ≠ c → ¬ AdjD E a c → ¬ Collider E a b c → (b, c) ∈ E) ∧
+    (∀ a b c, (a, b) ∈ E → (b, c) ∈ E → AdjD E a c → (a, c) ∈ E) ∧
+    (∀ a b c d, (c, b) ∈ E → (d, b) ∈ E → AdjD E a b → AdjD E a c → AdjD E a d → c ≠ d → ¬ AdjD E c d →
+      ¬ Collider E c a d → (a, b) ∈ E) :=
+  ⟨fun a b c h1 h2 h3 h4 h5 => meek_rule1 E a b c h1 h2 h3 h4 h5,
+   fun a b c h1 h2 h3 => meek_rule2 E hacyc a b c h1 h2 h3,
+   fun a b c d h1 h2 h3 h4 h5 h6 h7 h8 => meek_rule3 E hacyc a b c d h1 h2 h3 h4 h5 h6 h7 h8⟩
+
+/-- non-vacuity: the chain 0 → 1 → 2 meets the premises of R1 at (a, b, c) = (0, 1, 2) -/
+example : (0, 1) ∈ [((0 : Var), (1 : Var)), (1, 2)] ∧ AdjD [((0 : Var), (1 : Var)), (1, 2)] 1 2 ∧
+    ¬ AdjD [((0 : Var), (1 : Var)), (1, 2)] 0 2 ∧ ¬ Collider [((0 : Var), (1 : Var)), (1, 2)] 0 1 2 := by
+  unfold Collider AdjD
+  decide
 
 end PgmVerif
